@@ -403,4 +403,207 @@ example : verifyChain drvCrypto (some [([1], 1)])
 
 example : HashInjOn drvCrypto (fun _ => True) := fun _ _ _ _ h => h
 
+
+/-! ## 3. commits are atomic -/
+
+/-- ATOMICITY of one `TensorChain::commit` run without interference, from ANY node state (hence at every
+    point of every sequential history, see `commit_atomic_history`): either the result is `Ok`, the chain is
+    exactly one block longer, that block carries the workspace's operations (plus those of merged
+    workspaces) and the store is the old store with all these writes applied plus the block record and the
+    height record — or the chain (store, height, tip) is untouched and the result is not `Ok`. -/
+theorem commit_atomic (C : Crypto) (n : Node) (w ts : Nat) :
+    let r := commit C n w ts
+    (∃ (b : Block) (ws : Ws) (extra : List Tx),
+        r.2.res = some (.ok (n.chain.height + 1)) ∧ r.1.chain.height = n.chain.height + 1 ∧
+        findWs n.wss w = some ws ∧ b.txs = ws.ops ++ extra ∧ b.header.height = n.chain.height + 1 ∧
+        r.1.chain.store = sput (sput (applyTxs n.chain.store (ws.ops ++ extra)) (.block (n.chain.height + 1)) (.block b))
+                            .chainMeta (.height (n.chain.height + 1)))
+    ∨ (r.1.chain = n.chain ∧ ∀ h, r.2.res ≠ some (.ok h)) := by
+  intro r
+  have hr : r = commitRun C 7 (commitStep C n (Local.init w ts)).1 (commitStep C n (Local.init w ts)).2 := by
+    simp [r, commit, commitRun, Local.init]
+  have key := prepare_cases C n w ts
+  simp only at key
+  generalize commitStep C n (Local.init w ts) = q at key hr
+  obtain ⟨n1, l1⟩ := q
+  simp only at key hr
+  rcases key with ⟨hpc, hch, hres⟩ | ⟨hpc, hch, hcfg, hts, ws, extra, hws, hops⟩
+  · right
+    have : r = (n1, l1) := by
+      rw [hr]; simp [commitRun, hpc]
+    rw [this]; exact ⟨hch, hres⟩
+  · rcases pipeline C n1 l1 hpc with ⟨c', happ, h1, h2, h3⟩ | ⟨h1, h2⟩
+    · left
+      obtain ⟨hh, _, _, _, hc'⟩ := append_ok_inv C _ _ _ _ happ
+      refine ⟨fixTxRoot C (builtBlock C n1 l1.ops l1.dirs (stateRoot C (applyTxs n1.chain.store l1.ops)) l1.ts),
+        ws, extra, ?_, ?_, hws, ?_, ?_, ?_⟩
+      · rw [hr, h2, hc']; simp [hch]
+      · rw [hr, h1, hc']; simp [hch]
+      · rw [fixTxRoot_txs]; simp [builtBlock, hops]
+      · rw [fixTxRoot_height]; simp [builtBlock, hch]
+      · rw [hr, h1, hc']; simp [hch, hops]
+    · right
+      rw [hr]
+      exact ⟨by rw [h1, hch], h2⟩
+
+/-- the same over every sequential history: whatever ops ran before (begin/put/delete/commit/rollback over any
+    number of workspaces), the next commit is atomic -/
+theorem commit_atomic_history (C : Crypto) (n0 : Node) (ops : List Op) (w ts : Nat) :
+    let n := runOps C n0 ops
+    let r := commit C n w ts
+    (r.1.chain.height = n.chain.height + 1 ∧ r.2.res = some (.ok (n.chain.height + 1)))
+    ∨ (r.1.chain = n.chain ∧ ∀ h, r.2.res ≠ some (.ok h)) := by
+  intro n r
+  rcases commit_atomic C n w ts with ⟨b, ws, extra, h1, h2, _⟩ | h
+  · exact Or.inl ⟨h2, h1⟩
+  · exact Or.inr h
+
+/-- non-overlapping commits, any number of them: the height grows by exactly the number of `Ok` results -/
+def commitsSeq (C : Crypto) : Node → List (Nat × Nat) → Node × Nat
+  | n, [] => (n, 0)
+  | n, (w, ts) :: rest =>
+    let r := commit C n w ts
+    let q := commitsSeq C r.1 rest
+    (q.1, q.2 + (match r.2.res with | some (.ok _) => 1 | _ => 0))
+
+/-- the full statement about concurrent commits: for EVERY interleaving of the step lists of the commit calls,
+    once all calls have returned the chain verifies and its height is the old height plus the number of `Ok`s -/
+def ConcurrentCommitsValid (C : Crypto) : Prop :=
+  ∀ (n : Node) (ws : List Nat) (ts : Nat) (sched : List Nat), Inv C n.cfg.registry n.chain →
+    let r := runSched C sched n (ws.map fun w => Local.init w ts)
+    (∀ l ∈ r.2, l.pc = .done) →
+      verifyChain C r.1.cfg.registry r.1.chain = none ∧
+      r.1.chain.height = n.chain.height + (r.2.filter fun l => match l.res with | some (.ok _) => true | _ => false).length
+
+/-- PARTIAL (missing: overlapping commits, for which the statement is false — `concurrent_commit_witness`).
+    Commits that do not overlap in time: height = old height + number of successful commits. -/
+theorem concurrent_commits_nonoverlapping_partial (C : Crypto) (n : Node) (cs : List (Nat × Nat)) :
+    (commitsSeq C n cs).1.chain.height = n.chain.height + (commitsSeq C n cs).2 := by
+  induction cs generalizing n with
+  | nil => simp [commitsSeq]
+  | cons c rest ih =>
+    obtain ⟨w, ts⟩ := c
+    simp only [commitsSeq]
+    rw [ih]
+    rcases commit_atomic C n w ts with ⟨b, ws, extra, h1, h2, _⟩ | ⟨h1, h2⟩
+    · rw [h2, h1]; simp; omega
+    · rw [h1]
+      cases hres : (commit C n w ts).2.res with
+      | none => simp
+      | some x =>
+        cases x with
+        | ok h => exact absurd hres (h2 h)
+        | _ => simp
+
+def cfg0 : Config := { maxTxs := 1000, autoMerge := true, maxMerge := 10, registry := some [([1], 1)], nodeId := [1], key := 1 }
+
+/-- two workspaces with one write each, both still active -/
+def twoWs : Node := runOps drvCrypto (initNode drvCrypto cfg0 0) [.begin, .put 0 1 1, .begin, .put 1 2 2]
+
+def witnessSched : List Nat := [0, 1, 0, 1, 0, 1, 0, 1, 0, 1, 0, 1, 1]
+
+def witnessRun : Node × List Local := runSched drvCrypto witnessSched twoWs ([0, 1].map fun w => Local.init w 5)
+
+/-- WITNESS (DESIGN §8 row 12): two overlapping `commit`s.  Both snapshot, both apply, both build height 1;
+    thread 0's append wins; thread 1's append fails on the height check and it restores its snapshot — taken
+    before thread 0 stored its block.  Result: in-memory height 1, block record 1 gone, `verify_chain` =
+    `BlockNotFound(1)`, although thread 0 was told `Ok`. -/
+theorem concurrent_commit_witness : ¬ ConcurrentCommitsValid drvCrypto := by
+  intro h
+  have hdone : ∀ l ∈ witnessRun.2, l.pc = .done := by decide +kernel
+  have hbad : verifyChain drvCrypto witnessRun.1.cfg.registry witnessRun.1.chain = some (.notFound 1) := by decide +kernel
+  have := (h twoWs [0, 1] 5 witnessSched (inv_init _ _ _ _ _) hdone).1
+  rw [show runSched drvCrypto witnessSched twoWs ([0, 1].map fun w => Local.init w 5) = witnessRun from rfl] at this
+  rw [hbad] at this
+  cases this
+
+/-- non-vacuity of the sequential theorems: the same two commits run one after the other give two blocks
+    and a verifying chain -/
+example : (commitsSeq drvCrypto twoWs [(0, 5), (1, 6)]).2 = 2 ∧
+    verifyChain drvCrypto cfg0.registry (commitsSeq drvCrypto twoWs [(0, 5), (1, 6)]).1.chain = none := by decide +kernel
+
+/-! ### rollback -/
+
+/-- WITNESS: `rollback` restores the WHOLE store to the workspace's checkpoint.  In the sequential history
+    begin w0; put w0; begin w1; commit w0; rollback w1 the committed block 1 and its write disappear while
+    the in-memory height stays 1. -/
+theorem rollback_wipes_commit_witness :
+    let n := runOps drvCrypto (initNode drvCrypto cfg0 0) [.begin, .put 0 1 1, .begin, .commit 0 5, .rollback 1]
+    n.chain.height = 1 ∧ blockAt n.chain.store 1 = none ∧ sget n.chain.store (.data 1) = none ∧
+    verifyChain drvCrypto cfg0.registry n.chain = some (.notFound 1) := by decide
+
+/-- PARTIAL (missing: workspaces whose checkpoint is older than the last commit, see the witness).  A rollback
+    leaves chain and store untouched when nothing was committed since the workspace began. -/
+theorem rollback_untouched_partial (n : Node) (w : Nat) (ws : Ws) (hws : findWs n.wss w = some ws)
+    (hsnap : ws.snap = n.chain.store) : (rollbackWs n w).1.chain = n.chain := by
+  unfold rollbackWs
+  simp only [hws]
+  split
+  · rfl
+  · simp [hsnap]
+
+/-! ## 4. replay is deterministic -/
+
+def replay (C : Crypto) (reg : Option (List (List Nat × Nat))) (r : Replica) (bs : List Block) : Replica :=
+  bs.foldl (fun r b => (applyBlock C reg r b).1) r
+
+/-- two replicas are in agreement when the key/value image the state root scans is the same and their
+    chains are at the same height and tip (exactly what `apply_block` + `append` read) -/
+def Agree (r1 r2 : Replica) : Prop :=
+  r1.shared = r2.shared ∧ r1.stateStore = r2.stateStore ∧ r1.chain.height = r2.chain.height ∧ r1.chain.tip = r2.chain.tip
+
+theorem applyBlock_agree (C : Crypto) (reg : Option (List (List Nat × Nat))) (r1 r2 : Replica) (b : Block)
+    (h : Agree r1 r2) :
+    Agree (applyBlock C reg r1 b).1 (applyBlock C reg r2 b).1 ∧ (applyBlock C reg r1 b).2 = (applyBlock C reg r2 b).2 := by
+  obtain ⟨s1, c1, sh1⟩ := r1
+  obtain ⟨s2, c2, sh2⟩ := r2
+  obtain ⟨st1, h1, t1⟩ := c1
+  obtain ⟨st2, h2, t2⟩ := c2
+  obtain ⟨hsh, hst, hh, ht⟩ := h
+  simp only at hsh hh ht
+  subst hsh hh ht
+  cases sh1
+  · simp only [Replica.stateStore, Bool.false_eq_true, if_false] at hst
+    subst hst
+    simp only [applyBlock, Replica.stateStore, Replica.setState, Bool.false_eq_true, if_false, append_eq]
+    split
+    · simp [Agree, Replica.stateStore]
+    · cases appendCheck C reg h1 t1 b <;> simp [Agree, Replica.stateStore]
+  · simp only [Replica.stateStore, if_true] at hst
+    subst hst
+    simp only [applyBlock, Replica.stateStore, Replica.setState, if_true, append_eq]
+    split
+    · simp [Agree, Replica.stateStore]
+    · cases appendCheck C reg h1 t1 b <;> simp [Agree, Replica.stateStore]
+
+/-- DETERMINISM, with exactly the hypothesis the code needs: the state root is a function of the scanned
+    key/value image, so replicas that agree on that image (and on chain height/tip) accept/reject every block of
+    every block sequence identically and end with the same state root. -/
+theorem replay_deterministic (C : Crypto) (reg : Option (List (List Nat × Nat))) (bs : List Block) (r1 r2 : Replica)
+    (h : Agree r1 r2) :
+    Agree (replay C reg r1 bs) (replay C reg r2 bs) ∧
+    stateRoot C (replay C reg r1 bs).stateStore = stateRoot C (replay C reg r2 bs).stateStore := by
+  induction bs generalizing r1 r2 with
+  | nil => exact ⟨h, by rw [show (replay C reg r1 []).stateStore = r1.stateStore from rfl,
+                            show (replay C reg r2 []).stateStore = r2.stateStore from rfl, h.2.1]⟩
+  | cons b bs ih => exact ih _ _ (applyBlock_agree C reg r1 r2 b h).1
+
+/-- non-vacuity: two replicas with separate state stores and different chain stores (one already pruned) agree -/
+example : Agree (initReplica drvCrypto false [1] 5)
+    { initReplica drvCrypto false [1] 5 with chain := { (initReplica drvCrypto false [1] 5).chain with store := [] } } :=
+  ⟨by decide, by decide, by decide, by decide⟩
+
+/-- WITNESS: when the state store is the chain store, the scanned image contains the replica's own chain
+    records; two replicas whose records differ (here: genesis timestamps 5 and 6) compute different roots
+    for the same block, so a block valid on one is rejected by the other. -/
+theorem replay_shared_store_witness :
+    let r1 := initReplica drvCrypto true [1] 5
+    let r2 := initReplica drvCrypto true [1] 6
+    let root := stateRoot drvCrypto (applyTxs r1.chain.store [.put 1 1])
+    let h0 : Header := { height := 1, prevHash := r1.chain.tip, txRoot := txRoot drvCrypto [.put 1 1], stateRoot := root,
+                         embedding := [], codes := [], timestamp := 7, proposer := [1], signature := [7] }
+    let b : Block := { header := h0, txs := [.put 1 1], sigs := [] }
+    (applyBlock drvCrypto none r1 b).2 = none ∧ (applyBlock drvCrypto none r2 b).2 = some .stateRoot := by decide
+
+
 end Neumann.Chain.Props
